@@ -74,7 +74,8 @@ theorem closed_stream_read_resolves (e : EP) (h i : Nat) (o : Obj) (n : Nat)
 /-- … and a write fails with BrokenPipe without transmitting anything. -/
 theorem closed_stream_write_fails (e : EP) (h i : Nat) (o : Obj) (d : Bytes)
     (hh : e.handles[h]? = some i) (ho : e.objs[i]? = some o) (hc : o.finishSent = true) :
-    appWrite e h d = (e, .brokenPipe) :=
+    (appWrite e h d).2 = .brokenPipe ∧ (appWrite e h d).1.outq = e.outq ∧
+    (appWrite e h d).1.objs[i]? = some { o with parked := false } :=
   (Mux.appWrite_glue e h i o d hh ho).1 hc
 
 /-- Multiplexor calls after the task has finished: `Closed` (queued streams / datagrams / bind
